@@ -9,6 +9,8 @@
 import MediaSan.Mp4.Sanitize
 import MediaSan.Lemmas.Prog
 import MediaSan.Lemmas.ScanSafe
+import MediaSan.Lemmas.WebpSafe
+import MediaSan.Lemmas.Vp8lSafe
 namespace MediaSan.Props.C09
 open MediaSan MediaSan.Mp4
 
@@ -83,6 +85,33 @@ theorem C09_validate_no_panic (payload : Bytes) (hp : payload.length ≤ 4 * u32
 /-- the rewrite after the loop never panics for any moov tree and displacement -/
 theorem C09_displaceMoov_no_panic (disp : Int) (d : Data L5) (site : String) : displaceMoov disp d ≠ .panic site :=
   displaceMoov_np disp d site
+
+/-- the lossless (VP8L / lossless ALPH) validator never panics, for EVERY payload, every declared size and both
+    strictness settings: `read_huffman` never meets an empty node or runs out of depth (every code handed to it comes
+    out of `compile_read_tree`, which only returns complete tries, and the walk is bounded by the height), and the
+    `unreachable!` for a code-length symbol ≥ 19 (lossless.rs:586) is dead because the code-length code only ever
+    names the 19 entries of CODE_ORDER (table regenerated from the source) -/
+theorem C09_vp8l_no_panic (data : ByteArray) (width height : Nat) (cfg : Vp8l.LCfg) (site : String) :
+    Vp8l.validate data width height cfg ≠ .error (.panic site) :=
+  Vp8l.validate_np data width height cfg site
+
+/-- the whole WebP sanitizer on the ideal cursor (seek-based or strict skip) never panics, for EVERY stream and
+    configuration: no chunk-reader protocol assertion ("read_header must be read after peek_header"), no unreachable
+    padding state, no `stream_position() - 8` underflow, no codec read on a buffer shorter than the codec needs, no
+    panic site of the lossless validator.  Proved with the program logic `Safe` and the reader-stack invariant
+    `PeekInv` (a peeked header was read from the stream, so the position is at least 8). -/
+theorem C09_webp_no_panic (s : Stream) (kind : SkipKind) (cfg : Webp.Config) (site : String) :
+    Webp.sanitize s kind cfg ≠ .panic site := by
+  have hV : Webp.ValidateNP := fun data w h site => Vp8l.validate_np data w h .strict site
+  have h := Webp.sanitizeP_safe s kind hV cfg (s.len / 8 + 2)
+  unfold Safe at h
+  simp only [Webp.sanitize, Webp.sanitizeWith, run_eq_runF]
+  cases hr : (Webp.sanitizeP cfg (s.len / 8 + 2)).runF (idealOps s kind) 0 with
+  | ok x => obtain ⟨a, p⟩ := x; cases a <;> (intro hh; cases hh)
+  | parseErr e => intro hh; cases hh
+  | ioErr k => intro hh; cases hh
+  | panic st => rw [hr] at h; exact h.elim
+  | outOfFuel => rw [hr] at h; exact h.elim
 
 -- Non-vacuity
 example : displaceEntries 4 (-1) 1 [0, 0, 0, 0] = .err .invalidInput := by decide
